@@ -22,13 +22,38 @@ class DocMixin:
 
     def _init_doc(self, params):
         self.p = params
-        self.skeleton = params["skeleton"]
-        self.holes = list(params["holes"])
+        self.template = params.get("template")  # G3: [str | ["rep", char, lo, hi]]
+        self.skeleton = params.get("skeleton", "")
+        self.holes = list(params.get("holes", []))
 
     def variables(self):
+        if self.template:
+            return [(f"n{i}", "int") for i, part in enumerate(x for x in self.template if not isinstance(x, str))]
         return [(f"c{i}", "int") for i in range(len(self.holes))]
 
+    def doc_from_template(self, v):
+        """G3 structural counters: the repetition counts are z3 Ints (enumerated by branching
+        within their stated ranges when the string is built)."""
+        out = []
+        k = 0
+        for part in self.template:
+            if isinstance(part, str):
+                out.append(part)
+            else:
+                _, ch, lo, hi = part
+                n = v[f"n{k}"]
+                k += 1
+                if not (lo <= n <= hi):
+                    return None
+                m = lo
+                while m < hi and not (n == m):
+                    m += 1
+                out.append(ch * m)
+        return "".join(out)
+
     def doc(self, v):
+        if self.template:
+            return self.doc_from_template(v)
         cells = [v[f"c{i}"] for i in range(len(self.holes))]
         for c in cells:
             if not valid_cell(c, allow_cr=self.allow_cr):
@@ -396,9 +421,21 @@ class C13Harness:
         app.the_vfs()
 
     def variables(self):
-        return [(f"c{i}", "int") for i in range(len(self.h1) + len(self.h2))]
+        v = [(f"c{i}", "int") for i in range(len(self.h1) + len(self.h2))]
+        if self.p.get("seconds"):
+            v.append(("j", "int"))  # which document of the pool comes second (z3 Int)
+        return v
 
     def body(self, v):
+        if self.p.get("seconds"):
+            pool = self.p["seconds"]
+            j = v["j"]
+            if not (0 <= j < len(pool)):
+                return SKIP
+            k = 0
+            while k < len(pool) - 1 and not (j == k):
+                k += 1
+            self.sk2, self.h2 = pool[k], []
         cells = [v[f"c{i}"] for i in range(len(self.h1) + len(self.h2))]
         for c in cells:
             if not valid_cell(c):
